@@ -308,13 +308,13 @@ fn main() {
         run.assume("angle convention of the library: atan2(dy, dx) in screen coordinates, positive sweep increases it");
         let dmax = run.tier(96u64, 160u64);
         run.generate("circles", dmax + 1, true, 0.15, |ctx, idx, rng| check_circle(ctx, pos(rng), idx as u32));
-        let emax = run.tier(32u64, 64u64);
+        let emax = run.tier(32u64, 100u64);
         run.generate("ellipses", (emax + 1) * (emax + 1), true, 0.25, |ctx, idx, rng| check_ellipse(ctx, pos(rng), (idx % (emax + 1)) as u32, (idx / (emax + 1)) as u32));
         run.generate("rounded-equal-radii", 13 * 13 * 8 * 8, true, 0.2, |ctx, idx, rng| {
             let (w, h, rx, ry) = ((idx % 13) as u32, ((idx / 13) % 13) as u32, ((idx / 169) % 8) as u32, ((idx / 1352) % 8) as u32);
             check_rounded(ctx, Rectangle::new(pos(rng), Size::new(w, h)), CornerRadii::new(Size::new(rx, ry)));
         });
-        let nrr = run.tier(60_000u64, 1_500_000u64);
+        let nrr = run.tier(60_000u64, 8_000_000u64);
         run.generate("rounded-random-radii", nrr, false, 0.2, |ctx, _idx, rng| {
             let (w, h) = if rng.chance(1, 4) { (rng.u32r(0, 120), rng.u32r(0, 30)) } else { (rng.u32r(0, 30), rng.u32r(0, 30)) };
             let oversized = rng.chance(1, 2);
@@ -330,7 +330,7 @@ fn main() {
         let step = run.tier(5u64, 1u64);
         let na = 360 / step;
         let diameters: Vec<u32> = if run.quick() { vec![1, 2, 5, 9, 16, 31, 64, 128] } else { vec![0, 1, 2, 3, 4, 5, 7, 9, 12, 16, 24, 31, 32, 48, 64, 97, 128] };
-        let sweep_step = run.tier(25i64, 10i64);
+        let sweep_step = run.tier(25i64, 5i64);
         let sweeps: Vec<f32> = (-400 / sweep_step..=400 / sweep_step).map(|k| (k * sweep_step) as f32).collect();
         let (nd, ns) = (diameters.len() as u64, sweeps.len() as u64);
         run.generate("arc-sector-angle-grid", nd * na * ns, true, 0.5, |ctx, idx, rng| {
@@ -339,7 +339,7 @@ fn main() {
             let sweep = sweeps[((idx / (nd * na)) % ns) as usize];
             check_arc_sector(ctx, pos(rng), d, start, sweep);
         });
-        let nrand = run.tier(30_000u64, 600_000u64);
+        let nrand = run.tier(30_000u64, 3_000_000u64);
         run.generate("arc-sector-random-angles", nrand, false, 0.5, |ctx, _idx, rng| {
             let d = if rng.chance(1, 3) { rng.u32r(0, 128) } else { rng.u32r(0, 40) };
             check_arc_sector(ctx, pos(rng), d, zoo::gen_angle(rng), zoo::gen_angle(rng));
